@@ -32,7 +32,11 @@ type solveOut struct {
 }
 
 func runSolver(s solverSpec, file string, timeoutS int) solveOut {
-	ctx, cancel := context.WithTimeout(context.Background(), time.Duration(timeoutS+2)*time.Second)
+	return runSolverCtx(context.Background(), s, file, timeoutS)
+}
+
+func runSolverCtx(parent context.Context, s solverSpec, file string, timeoutS int) solveOut {
+	ctx, cancel := context.WithTimeout(parent, time.Duration(timeoutS+2)*time.Second)
 	defer cancel()
 	argv := s.argv(file, timeoutS)
 	cmd := exec.CommandContext(ctx, argv[0], argv[1:]...)
@@ -120,25 +124,90 @@ func solveOne(u *UnitResult, o *OblResult, cfg solveConfig) (disagreement string
 		return
 	}
 	if o.Cover {
-		r := runSolver(solvers[0], file, cfg.timeoutS)
-		o.Ms, o.Backend = r.ms, solvers[0].name
-		o.Tried = append(o.Tried, solvers[0].name+":"+r.verdict)
-		switch r.verdict {
-		case "unsat":
-			// double-check with a second solver before declaring vacuity
-			r2 := runSolver(solvers[1], file, cfg.timeoutS)
-			o.Tried = append(o.Tried, solvers[1].name+":"+r2.verdict)
-			if r2.verdict == "sat" {
-				return fmt.Sprintf("%s: %s says unsat, %s says sat", o.Name, solvers[0].name, solvers[1].name)
+		// reachability: any 'sat' wins; 'unsat' from one solver is double-checked by another
+		ctx, cancel := context.WithCancel(context.Background())
+		defer cancel()
+		type res struct {
+			s solverSpec
+			r solveOut
+		}
+		to := cfg.timeoutS
+		if to > 5 {
+			to = 5
+		}
+		ch := make(chan res, len(solvers))
+		for _, s := range solvers {
+			go func(s solverSpec) { ch <- res{s, runSolverCtx(ctx, s, file, to)} }(s)
+		}
+		t0 := time.Now()
+		nUnsat := 0
+		for range solvers {
+			x := <-ch
+			if o.Status == "cover-ok" {
+				continue
 			}
+			o.Tried = append(o.Tried, x.s.name+":"+x.r.verdict)
+			switch x.r.verdict {
+			case "sat":
+				o.Status, o.Backend = "cover-ok", x.s.name
+				cancel()
+			case "unsat":
+				nUnsat++
+			}
+		}
+		o.Ms = time.Since(t0).Milliseconds()
+		if o.Status == "cover-ok" {
+			if nUnsat > 0 {
+				return fmt.Sprintf("%s: solvers disagree on reachability (%s)", o.Name, strings.Join(o.Tried, ", "))
+			}
+			return
+		}
+		if nUnsat >= 1 {
 			o.Status = "cover-vacuous"
-		default:
-			o.Status = "cover-ok"
+		} else {
+			o.Status = "cover-ok" // undecided reachability is not evidence of vacuity
+			o.Backend = "undecided"
 		}
 		return
 	}
 	var verdicts []string
-	for i, s := range solvers {
+	if !cfg.all {
+		// race: first definitive answer wins
+		ctx, cancel := context.WithCancel(context.Background())
+		type res struct {
+			s solverSpec
+			r solveOut
+		}
+		ch := make(chan res, len(solvers))
+		for _, s := range solvers {
+			go func(s solverSpec) { ch <- res{s, runSolverCtx(ctx, s, file, cfg.timeoutS)} }(s)
+		}
+		t0 := time.Now()
+		for range solvers {
+			x := <-ch
+			if o.Status == "discharged" || o.Status == "failed" {
+				continue
+			}
+			o.Tried = append(o.Tried, x.s.name+":"+x.r.verdict)
+			verdicts = append(verdicts, x.r.verdict)
+			switch x.r.verdict {
+			case "unsat":
+				o.Status, o.Backend = "discharged", x.s.name
+				cancel()
+			case "sat":
+				o.Status, o.Backend, o.Model, o.Output = "failed", x.s.name, x.r.output, x.r.output
+				cancel()
+			default:
+				if o.Status == "" {
+					o.Status, o.Output = "unknown", x.r.output
+				}
+			}
+		}
+		cancel()
+		o.Ms = time.Since(t0).Milliseconds()
+		return ""
+	}
+	for _, s := range solvers {
 		r := runSolver(s, file, cfg.timeoutS)
 		o.Tried = append(o.Tried, s.name+":"+r.verdict)
 		o.Ms += r.ms
@@ -158,10 +227,6 @@ func solveOne(u *UnitResult, o *OblResult, cfg solveConfig) (disagreement string
 				o.Output = r.output
 			}
 		}
-		if !cfg.all && (o.Status == "discharged" || o.Status == "failed") {
-			break
-		}
-		_ = i
 	}
 	hasSat, hasUnsat := false, false
 	for _, v := range verdicts {
